@@ -135,7 +135,7 @@ func c06histBody(depth int) func() {
 		policy := []service.LoadBalancePolicy{service.LoadBalancePolicy_ROUND_ROBIN, service.LoadBalancePolicy_RANDOM, service.LoadBalancePolicy_LEAST_CONNECTION}[sched.Choose(sched.ClsInput, 3, "policy")]
 		w := c06setup(policy, []string{"a", "b", "c"})
 		var hist []string
-		ops := []string{"add a", "add b", "add c", "remove a", "remove b", "remove c", "replace {a}", "replace {b,c}", "unhealthy a", "unhealthy b", "unhealthy c", "healthy a", "healthy b", "connect", "disconnect"}
+		ops := []string{"add a", "add b", "add c", "remove a", "remove b", "remove c", "replace {a}", "replace {b,c}", "remove a,b", "remove b,a", "unhealthy a", "unhealthy b", "unhealthy c", "healthy a", "healthy b", "connect", "disconnect"}
 		for step := 0; step < depth; step++ {
 			op := ops[sched.Choose(sched.ClsInput, len(ops), "op")]
 			hist = append(hist, op)
@@ -147,9 +147,13 @@ func c06histBody(depth int) func() {
 					w.members[f[1]], w.healthy[f[1]] = true, true
 				}
 			case "remove":
-				w.p.OnSvcHostRemove([]*host.Host{host.NewWithType(c06addrs[f[1]], c06types[f[1]])})
-				delete(w.members, f[1])
-				delete(w.healthy, f[1])
+				var hs []*host.Host
+				for _, n := range strings.Split(f[1], ",") {
+					hs = append(hs, host.NewWithType(c06addrs[n], c06types[n]))
+					delete(w.members, n)
+					delete(w.healthy, n)
+				}
+				w.p.OnSvcHostRemove(hs)
 			case "replace":
 				var hs []*host.Host
 				names := strings.Split(strings.Trim(f[1], "{}"), ",")
